@@ -4,7 +4,7 @@
 From SC Require Import Lib.Prelude Model.SwapPop Model.RegCommon Model.RegBinder Model.RegDocs
   Model.RegCTI Model.RegKeys Model.RegIRS Model.RegSmall Model.RegSA Run.C20
   Proofs.C20Common Proofs.C20Binder Proofs.C20Docs Proofs.C20Small Proofs.C20IRS Proofs.C20Keys
-  Proofs.C20CTI Proofs.C20SA Proofs.C20Final Proofs.C20Props.
+  Proofs.C20CTI Proofs.C20SA Proofs.C20Final Proofs.C20Props Proofs.C20Classes.
 From Coq Require Import Permutation.
 
 (* The executable monitors (the property as a boolean over observed calls, outcomes and getter
@@ -520,6 +520,61 @@ Print Assumptions C20_ledger_gaps_change_nothing.
 
 
 (* ------------------------------------------------------------------------- *)
+(* Class hardening (round 4).  Every theorem above is quantified over ALL addresses, topics, ids,   *)
+(* keys and indexes (N): the contract's own address, another registered contract, 0 and 2^32 - 1    *)
+(* are instances (classes K1 / K2); the three theorems below pin what the directed class histories  *)
+(* of the harness exercise for K4 (collaborators), K5 (aliasing) and K6 (positions after removals). *)
+(* ------------------------------------------------------------------------- *)
+
+(* K4: in ANY state, an external collaborator that does not answer "yes" - it answers no, traps, does not
+   exist, answers a value of another type (all of which reach the model as Fail / false) - never leads to a
+   registration: allow_key needs the registry's [Ok true], add_claim the issuer's approval, add_policy and
+   add_context_rule the successful install of every policy *)
+Theorem C20_collaborator_must_approve :
+  (forall (c : ck_cfg) (s : ck_state) (pk : N) (reg : addr) (sch t : N) (has : res bool),
+      has <> Ok true -> ck_step c s (CkAllow pk reg sch t has) = Fail)
+  /\ (forall (s : ic_state) (cl : claim), ic_step s (IcAdd cl false) = Fail)
+  /\ (forall (c : sa_cfg) (s : sa_state) (id : N) (p : addr), sa_step c s (SaAddPolicy id p false) = Fail)
+  /\ (forall (c : sa_cfg) (s : sa_state) (cx : ctxt) (name : N) (until : option N) (sg : list signer)
+             (po : list (addr * bool)),
+         forallb snd po = false -> sa_step c s (SaAddRule cx name until sg po) = Fail).
+Proof. exact collaborator_must_approve. Qed.
+Print Assumptions C20_collaborator_must_approve.
+
+(* K6: positions after a removal, numerically.  In every reachable state a successful unbind of the token at
+   index i puts the LAST token z at index i, leaves every other token at its index, drops index length - 1, and
+   get_token_index follows (z -> i, the removed token -> not found, all others unchanged) - whichever element
+   (first, middle, second-to-last, last) is removed, after any history *)
+Theorem C20_binder_unbind_positions :
+  forall c : tb_cfg,
+  (0 < tb_bs c)%nat ->
+  forall (cs : list tb_call) (t : N) (s' : tb_state),
+  let s := run (tb_step c) tb_init cs in
+  let l := tb_linked c s in
+  tb_step c s (TbUnbind t) = Ok (s', tt) ->
+  exists (i : nat) (z : N),
+    tb_index_of c s t = Ok i /\ nth_error l i = Some t /\ nth_error l (length l - 1) = Some z /\
+    tb_linked c s' = swap_pop i l /\
+    (forall j : nat, tb_by_index c s' (N.of_nat j) =
+                     if (j <? length l - 1)%nat then (if (j =? i)%nat then Ok z else of_option (nth_error l j)) else Fail) /\
+    (forall u : N, u <> t -> tb_index_of c s' u = if N.eqb u z then Ok i else tb_index_of c s u) /\
+    tb_index_of c s' t = Fail.
+Proof. exact binder_unbind_positions. Qed.
+Print Assumptions C20_binder_unbind_positions.
+
+(* K5: aliasing in the identity registry.  After every history, recovering an account into itself is refused,
+   and whether add_identity is accepted never depends on the identity argument (account = identity, identity =
+   the registry's own address, ... are not special) *)
+Theorem C20_irs_aliasing :
+  forall (c : irs_cfg) (cs : list irs_call),
+  let s := run (irs_step c) irs_init cs in
+  (forall x : addr, irs_step c s (IrRecover x x) = Fail) /\
+  (forall (acct i1 i2 : addr) (ty : N) (cds : list cdata),
+      is_ok (irs_step c s (IrAdd acct i1 ty cds)) = is_ok (irs_step c s (IrAdd acct i2 ty cds))).
+Proof. exact irs_aliasing. Qed.
+Print Assumptions C20_irs_aliasing.
+
+(* ------------------------------------------------------------------------- *)
 (* Examples: the monitors are not vacuous - each rejects a hand-made trace that  *)
 (* violates the property (the number is the 1-based index of the offending event) *)
 (* ------------------------------------------------------------------------- *)
@@ -666,6 +721,66 @@ Proof. vm_compute. reflexivity. Qed.
 (* H5: an event without any observation proves nothing and is not accepted *)
 Example C20_review_H5_empty_observation :
   monitor (TrCM 20 [(Call (CmAdd 0 1), Ok tt, [])]) = 1.
+Proof. vm_compute. reflexivity. Qed.
+
+(* ---- class hardening: hand-made traces of the mutation classes K1 - K6, each rejected by the monitor ---- *)
+(* K1: the registry's own address (here 3) is bound, yet is_token_bound answers false - so it can be bound twice *)
+Example C20_classes_K1_own_address_not_seen_as_bound :
+  monitor (TrBinder 100 10000 [] [(Call (TbBind 3), Ok tt, [(TqLinked, TaList [3]); (TqIsBound 3, TaBool false)])]) = 1.
+Proof. vm_compute. reflexivity. Qed.
+Example C20_classes_K1_own_address_module_silently_dropped :
+  monitor (TrCM 20 [(Call (CmAdd 3 3), Ok tt, [(MqModules 3, MaList []); (MqIsRegistered 3 3, MaBool false)])]) = 1.
+Proof. vm_compute. reflexivity. Qed.
+(* K2: the claim of topic 0 is stored but missing from the per-topic index; valid_until = 2^32 - 1 read back as None *)
+Example C20_classes_K2_topic_zero_not_indexed :
+  monitor (TrIC [(Call (IcAdd (Build_claim 0 0 0 1 0 1) true), Ok (Some (0, 0)),
+                  [(JqClaim (0, 0), JaClaim (Ok (Build_claim 0 0 0 1 0 1))); (JqByTopic 0, JaIds [])])]) = 1.
+Proof. vm_compute. reflexivity. Qed.
+Example C20_classes_K2_until_u32_max_lost :
+  monitor (TrSA 15 15 5 100
+    [(Call (SaAddRule CDefault 0 None [Delegated 0] []), Ok (Some (Build_rule 0 CDefault 0 [Delegated 0] [] None)), [(SqCount, SaNat 1)]);
+     (Call (SaUpdateUntil 0 (Some 4294967295)), Ok (Some (Build_rule 0 CDefault 0 [Delegated 0] [] None)), [(SqCount, SaNat 1)])]) = 2.
+Proof. vm_compute. reflexivity. Qed.
+(* K3: a present rule whose removal is refused by a sibling entry point (same monitor, whatever the path) *)
+Example C20_classes_K3_present_rule_not_removable :
+  monitor (TrSA 15 15 5 100
+    [(Call (SaAddRule CDefault 0 None [Delegated 0] []), Ok (Some (Build_rule 0 CDefault 0 [Delegated 0] [] None)), [(SqCount, SaNat 1)]);
+     (Call (SaRemoveRule 0), Fail, [(SqCount, SaNat 1)])]) = 2.
+Proof. vm_compute. reflexivity. Qed.
+(* K4: the registry did not answer (trap / no contract / other type = Fail), the key is allowed all the same;
+       the issuer did not approve, the claim is stored all the same *)
+Example C20_classes_K4_unanswered_registry_counts_as_yes :
+  monitor (TrKeys 50 20 [(Call (CkAllow 7 4 101 1 Fail), Ok tt, [(KqRegistries (7, 101), KaRegs (Ok [4]))])]) = 1.
+Proof. vm_compute. reflexivity. Qed.
+Example C20_classes_K4_unapproved_claim_stored :
+  monitor (TrIC [(Call (IcAdd (Build_claim 1 101 5 1 1 1) false), Ok (Some (5, 1)), [(JqByTopic 1, JaIds [(5, 1)])])]) = 1.
+Proof. vm_compute. reflexivity. Qed.
+(* K5: the policy that is also the rule's call target failed to install, the rule exists all the same;
+       an update with the same hash but another uri is not stored *)
+Example C20_classes_K5_policy_equal_to_call_target_not_installed :
+  monitor (TrSA 15 15 5 100
+    [(Call (SaAddRule (CCall 4) 2 None [] [(0, false)]), Ok (Some (Build_rule 0 (CCall 4) 2 [] [0] None)), [(SqCount, SaNat 1)])]) = 1.
+Proof. vm_compute. reflexivity. Qed.
+Example C20_classes_K5_update_with_same_hash_dropped :
+  monitor (TrDocs 50 5000 200 [] [(Call (DmSet 5 (Build_doc 1 3 5 1000)), Ok tt, [(DqGet 5, DaDoc (Ok (Build_doc 1 3 5 1000)))]);
+                                  (Call (DmSet 5 (Build_doc 2 3 5 1003)), Ok tt, [(DqGet 5, DaDoc (Ok (Build_doc 1 3 5 1000)))])]) = 2.
+Proof. vm_compute. reflexivity. Qed.
+(* K6: unbinding the second-to-last of four tokens drops the LAST one instead; an expired rule can no longer be updated *)
+Example C20_classes_K6_second_to_last_removal_drops_last :
+  monitor (TrBinder 100 10000 [] [(Call (TbBindMany [0; 1; 2; 3]), Ok tt, [(TqLinked, TaList [0; 1; 2; 3])]);
+                                   (Call (TbUnbind 2), Ok tt, [(TqLinked, TaList [0; 1; 2]); (TqIndexOf 3, TaIdx Fail)])]) = 2.
+Proof. vm_compute. reflexivity. Qed.
+Example C20_classes_K6_expired_rule_not_updatable :
+  monitor (TrSA 15 15 5 100
+    [(Call (SaAddRule CDefault 0 (Some 110) [Delegated 0] []), Ok (Some (Build_rule 0 CDefault 0 [Delegated 0] [] (Some 110))), [(SqCount, SaNat 1)]);
+     (Advance 20, Ok None, [(SqCount, SaNat 1)]);
+     (Call (SaUpdateUntil 0 (Some 130)), Fail, [(SqCount, SaNat 1)])]) = 3.
+Proof. vm_compute. reflexivity. Qed.
+(* ... and the faithful answers for the same situations are accepted (the own address is an address like any other) *)
+Example C20_classes_accepts_own_address :
+  check (TrBinder 100 10000 [] [(Call (TbBind 3), Ok tt, [(TqLinked, TaList [3]); (TqIsBound 3, TaBool true); (TqIndexOf 3, TaIdx (Ok 0))]);
+                                 (Call (TbBind 3), Fail, [(TqLinked, TaList [3])]);
+                                 (Call (TbUnbind 3), Ok tt, [(TqLinked, TaList []); (TqIsBound 3, TaBool false)])]) = (0, 0, 0).
 Proof. vm_compute. reflexivity. Qed.
 
 (* ---- documented deviations / interpretations (not violations; see props/C20.json level_note) ---- *)
